@@ -5,6 +5,11 @@
 // the state. Breadth-first over all queries of the alphabet, states de-duplicated on the cache content, so every
 // query sequence up to the depth bound is covered. Oracle (differential): the answer equals the answer of the
 // identical chain built without the results cache. Everything runs inside testing/synctest (fixed "now").
+//
+// Two families of universes: the ALIGNED one (product default align-range-with-step=true, 16 queries in minutes)
+// and the UNALIGNED ones (--query-range.align-range-with-step=false, see unaligned_test.go): one coarse step whose
+// requests start at every phase that is not a multiple of the step, after aligned requests of every lower
+// common step, so that every lower-step alternative cache key is consulted for starts on and off its grid.
 package c42
 
 import (
@@ -33,10 +38,15 @@ import (
 )
 
 // Case is a replayable history: queries (indices into the alphabet) sent one after the other to a fresh frontend.
+// UnitS == 0: the aligned family (alphabet below, unit 1 minute). UnitS > 0: an unaligned universe with time
+// unit UnitS seconds, coarse step Coarse units, all coarse requests starting at Phase (mod Coarse) units.
 type Case struct {
 	Dataset  int   `json:"dataset"`
 	SplitMin int   `json:"split_min"`
 	Hist     []int `json:"hist"`
+	UnitS    int   `json:"unit_s,omitempty"`
+	Coarse   int   `json:"coarse,omitempty"`
+	Phase    int   `json:"phase,omitempty"`
 }
 
 const (
@@ -46,8 +56,23 @@ const (
 	baseMs = int64(946598400000)
 )
 
-// q is a range query in minutes relative to baseMs.
+// q is a range query in units (minutes in the aligned family) relative to baseMs.
 type q struct{ Start, End, Step int64 }
+
+// universe = what a Case's history indexes into: the time unit, whether the chains align requests, the queries.
+type universe struct {
+	unit     int64 // ms
+	align    bool
+	alphabet []q
+	coarse   int // index of the first coarse (unaligned) query; len(alphabet) when there is none
+}
+
+func universeOf(c Case) universe {
+	if c.UnitS == 0 {
+		return universe{unit: minute, align: true, alphabet: alphabet, coarse: len(alphabet)}
+	}
+	return unalignedUniverse(c)
+}
 
 // The alphabet: one query per situation visible in results_cache.go / split_by_interval.go (split interval 1h).
 var alphabet = []q{
@@ -100,6 +125,7 @@ func present(s series, m int64) bool {
 
 // downstream is the fake Prometheus: value at (series, t) depends on nothing else, in particular not on step.
 type downstream struct {
+	unit  int64
 	ds    []series
 	steps atomic.Int64 // evaluation timestamps served (to see how much the cache saved)
 	calls atomic.Int64
@@ -124,8 +150,8 @@ func (d *downstream) RoundTrip(r *http.Request) (*http.Response, error) {
 	for si, s := range d.ds {
 		var vals []string
 		for t := start; t <= end; t += step {
-			if (t-baseMs)%minute == 0 && present(s, (t-baseMs)/minute) {
-				vals = append(vals, fmt.Sprintf(`[%d,"%d"]`, t/1000, (t-baseMs)/minute*10+int64(si)))
+			if (t-baseMs)%d.unit == 0 && present(s, (t-baseMs)/d.unit) {
+				vals = append(vals, fmt.Sprintf(`[%d,"%d"]`, t/1000, (t-baseMs)/d.unit*10+int64(si)))
 			}
 		}
 		if len(vals) == 0 {
@@ -145,12 +171,12 @@ func (d *downstream) RoundTrip(r *http.Request) (*http.Response, error) {
 		Body: io.NopCloser(strings.NewReader(sb.String())), Request: r}, nil
 }
 
-func httpReq(x q) *http.Request {
+func httpReq(u universe, x q) *http.Request {
 	f := url.Values{}
 	f.Set("query", "m")
-	f.Set("start", strconv.FormatInt((baseMs+x.Start*minute)/1000, 10))
-	f.Set("end", strconv.FormatInt((baseMs+x.End*minute)/1000, 10))
-	f.Set("step", strconv.FormatInt(x.Step*60, 10))
+	f.Set("start", strconv.FormatInt((baseMs+x.Start*u.unit)/1000, 10))
+	f.Set("end", strconv.FormatInt((baseMs+x.End*u.unit)/1000, 10))
+	f.Set("step", strconv.FormatInt(x.Step*u.unit/1000, 10))
 	req, err := http.NewRequestWithContext(user.InjectOrgID(context.Background(), "t"), http.MethodGet, "http://fe/api/v1/query_range?"+f.Encode(), nil)
 	if err != nil {
 		panic(err)
@@ -164,8 +190,13 @@ type answer struct {
 	Series map[string][]string
 }
 
-func do(rt http.RoundTripper, x q) answer {
-	resp, err := rt.RoundTrip(httpReq(x))
+func do(rt http.RoundTripper, u universe, x q) (a answer) {
+	defer func() {
+		if p := recover(); p != nil {
+			a = answer{Err: fmt.Sprintf("panic: %v", p)}
+		}
+	}()
+	resp, err := rt.RoundTrip(httpReq(u, x))
 	if err != nil {
 		return answer{Err: "error: " + err.Error()}
 	}
@@ -186,7 +217,7 @@ func do(rt http.RoundTripper, x q) answer {
 	if err := json.Unmarshal(body, &pr); err != nil || pr.Status != "success" {
 		return answer{Err: fmt.Sprintf("undecodable answer %q: %v", body, err)}
 	}
-	a := answer{Series: map[string][]string{}}
+	a = answer{Series: map[string][]string{}}
 	for _, s := range pr.Data.Result {
 		var vs []string
 		for _, v := range s.Values {
@@ -199,9 +230,12 @@ func do(rt http.RoundTripper, x q) answer {
 
 // compare returns "" when the cached answer equals the direct one, else (signature, description).
 // x is the query (for its step grid after step alignment).
-func compare(x q, direct, cached answer) (string, string) {
+func compare(u universe, x q, direct, cached answer) (string, string) {
 	if direct.Err != "" {
 		return "", "" // the reference itself failed: the caller treats that as a harness problem
+	}
+	if strings.HasPrefix(cached.Err, "panic: ") {
+		return "cached-chain-panics", cached.Err
 	}
 	if cached.Err != "" {
 		return "cached-chain-fails", cached.Err
@@ -216,7 +250,11 @@ func compare(x q, direct, cached answer) (string, string) {
 		}
 	}
 	sort.Strings(names)
-	gridStart := baseMs + x.Start/x.Step*x.Step*minute
+	gridStart := baseMs + x.Start*u.unit // the chains evaluate at start+k*step ...
+	if u.align {
+		gridStart = baseMs + x.Start/x.Step*x.Step*u.unit // ... after StepAlign moved start down to a multiple of step
+	}
+	onlyOne, oneStep := true, ""
 	sig, desc := "", ""
 	rank := map[string]int{"timestamps-off-the-query-step-grid": 5, "samples-not-in-direct-answer": 4, "samples-duplicated-in-cached-answer": 3,
 		"samples-missing-from-cached-answer": 2, "series-missing-from-cached-answer": 2, "samples-reordered-in-cached-answer": 1}
@@ -228,6 +266,13 @@ func compare(x q, direct, cached answer) (string, string) {
 	for _, n := range names {
 		d, c := direct.Series[n], cached.Series[n]
 		if c == nil {
+			if miss := missingOne(d, nil); miss != "" && (oneStep == "" || oneStep == miss) {
+				// a series whose only sample is missing: the same class as one missing step of a longer series
+				oneStep = miss
+				set("samples-missing-from-cached-answer", fmt.Sprintf("series %q with its only sample %s; ", n, d[0]))
+				continue
+			}
+			onlyOne = false
 			set("series-missing-from-cached-answer", fmt.Sprintf("series %q, direct answer has %d samples", n, len(d)))
 			continue
 		}
@@ -245,7 +290,7 @@ func compare(x q, direct, cached answer) (string, string) {
 			if want[s] == 0 {
 				var ts int64
 				fmt.Sscanf(s, "%d=", &ts)
-				if (ts-gridStart)%(x.Step*minute) != 0 {
+				if (ts-gridStart)%(x.Step*u.unit) != 0 {
 					set("timestamps-off-the-query-step-grid", fmt.Sprintf("sample %s is not at start+k*step; ", s)+both)
 				} else {
 					set("samples-not-in-direct-answer", fmt.Sprintf("sample %s; ", s)+both)
@@ -260,9 +305,33 @@ func compare(x q, direct, cached answer) (string, string) {
 				break
 			}
 		}
+		// narrower class: the cached answer of this series is the direct one without ONE sample, at the same step in every series
+		if miss := missingOne(d, c); miss == "" || (oneStep != "" && oneStep != miss) {
+			onlyOne = false
+		} else {
+			oneStep = miss
+		}
 		set("samples-reordered-in-cached-answer", both)
 	}
+	if sig == "samples-missing-from-cached-answer" && onlyOne {
+		sig = "single-step-missing-from-cached-answer"
+	}
 	return sig, desc
+}
+
+// missingOne returns the timestamp of the one sample of d that c lacks when c is otherwise identical to d, else "".
+func missingOne(d, c []string) string {
+	if len(c) != len(d)-1 {
+		return ""
+	}
+	i := 0
+	for i < len(c) && c[i] == d[i] {
+		i++
+	}
+	if strings.Join(d[i+1:], " ") != strings.Join(c[i:], " ") {
+		return ""
+	}
+	return d[i][:strings.IndexByte(d[i], '=')]
 }
 
 func digest(s map[string][]byte) string {
@@ -280,6 +349,7 @@ func digest(s map[string][]byte) string {
 }
 
 type rig struct {
+	u      universe
 	down   *downstream
 	cache  *queryfrontend.VerifC42Cache
 	cached http.RoundTripper
@@ -287,13 +357,14 @@ type rig struct {
 }
 
 func newRig(t testing.TB, c Case) *rig {
-	g := &rig{down: &downstream{ds: datasets[c.Dataset]}, cache: queryfrontend.VerifC42NewCache()}
+	u := universeOf(c)
+	g := &rig{u: u, down: &downstream{unit: u.unit, ds: datasets[c.Dataset]}, cache: queryfrontend.VerifC42NewCache()}
 	var err error
 	split := time.Duration(c.SplitMin) * time.Minute
-	if g.cached, err = queryfrontend.VerifC42Tripperware(g.cache, split, g.down); err != nil {
+	if g.cached, err = queryfrontend.VerifC42TripperwareAlign(g.cache, split, u.align, g.down); err != nil {
 		t.Fatalf("HARNESS-ERROR tripperware: %v", err)
 	}
-	if g.direct, err = queryfrontend.VerifC42Tripperware(nil, split, g.down); err != nil {
+	if g.direct, err = queryfrontend.VerifC42TripperwareAlign(nil, split, u.align, g.down); err != nil {
 		t.Fatalf("HARNESS-ERROR tripperware: %v", err)
 	}
 	return g
@@ -303,13 +374,17 @@ func newRig(t testing.TB, c Case) *rig {
 // answer. It returns the first difference.
 func replay(t testing.TB, c Case) (sig, desc string, at int) {
 	g := newRig(t, c)
+	alphabet := g.u.alphabet
 	for i, qi := range c.Hist {
+		if qi < 0 || qi >= len(alphabet) {
+			panic(fmt.Sprintf("HARNESS-ERROR history %v does not fit the alphabet of %d queries", c.Hist, len(alphabet)))
+		}
 		before := queryfrontend.VerifC42DescribeState(g.cache.Snapshot())
-		d := do(g.direct, alphabet[qi])
-		a := do(g.cached, alphabet[qi])
-		if s, ds := compare(alphabet[qi], d, a); s != "" {
-			return s, fmt.Sprintf("dataset %d, query #%d of the history %+v (minutes from 1999-12-31T00:00Z): %s; cache before this query: %s",
-				c.Dataset, i+1, alphabet[qi], ds, strings.Join(before, " | ")), i
+		d := do(g.direct, g.u, alphabet[qi])
+		a := do(g.cached, g.u, alphabet[qi])
+		if s, ds := compare(g.u, alphabet[qi], d, a); s != "" {
+			return s, fmt.Sprintf("dataset %d, %s, query #%d of the history %+v (units of %ds from 1999-12-31T00:00Z, split interval %dm): %s; cache before this query: %s",
+				c.Dataset, describeUniverse(c), i+1, alphabet[qi], g.u.unit/1000, c.SplitMin, ds, strings.Join(before, " | ")), i
 		}
 	}
 	return "", "", -1
@@ -332,12 +407,20 @@ func TestCheck(t *testing.T) {
 	r := vlib.New(t, "C42")
 	defer r.Finish()
 	depth := vlib.Pick(r, 3, 8)
-	r.Rule(fmt.Sprintf("BFS over cache states: 3 datasets (series present on windows with edges on extent/split boundaries) x split 1h; "+
+	depthU := vlib.Pick(r, 3, 5)
+	dsU := vlib.Pick(r, []int{1}, []int{0, 1, 2})
+	unis := unalignedCases(dsU)
+	r.Rule(fmt.Sprintf("BFS over cache states. ALIGNED family (align-range-with-step=true): 3 datasets (series present on windows with edges on extent/split boundaries) x split 1h; "+
 		"alphabet of %d range queries (overlapping/adjacent/disjoint, tiny extents, start==end, across the split boundary, steps 1m/2m/5m, unaligned); "+
 		"every query from every reachable cache state up to depth %d (= all query sequences up to that length, states de-duplicated on cache content). "+
-		"non-trivial = distinct (state, query) transitions in which the cached chain asked downstream for fewer steps than the direct chain", len(alphabet), depth))
+		"UNALIGNED family (align-range-with-step=false): %d universes = coarse common step S in {60s (unit 10s, split 10m), 30s (unit 5s, split 5m), 10m (unit 1m, split 1h)} x "+
+		"EVERY start phase P in {1..S-1 units} of the coarse requests x datasets %v; alphabet per universe: one aligned request per lower common step that is a multiple of the unit "+
+		"(30s/20s/10s, 15s/10s/5s, 5m/2m/1m) + one of them across the split boundary + 3 coarse requests starting at P mod S (inside the first split interval, across it, start==end); depth %d. "+
+		"non-trivial = distinct (state, query) transitions in which the cached chain asked downstream for fewer steps than the direct chain", len(alphabet), depth, len(unis), dsU, depthU))
 	r.Assume("downstream is deterministic and its value at (series,t) does not depend on step or range (instant-vector semantics)",
-		"product default configuration (align-range-with-step, split 1h, in-memory FIFO cache without eviction); now = 2000-01-01 (synctest), data one day older",
+		"split 1h / 10m / 5m, in-memory FIFO cache without eviction; now = 2000-01-01 (synctest), data one day older",
+		"unaligned family: requests of one step share one evaluation grid (all coarse requests of a universe start at the same phase and end on their grid; all lower-step requests are step aligned, as Grafana sends them); "+
+			"requests of ONE step on DIFFERENT grids share a cache entry (the key has no phase) and are outside the asserted space, see probe notes",
 		"state = recorded content of the FIFO cache; restoring a state = Store() of the recorded entries into a fresh FIFO cache; every counter-example is confirmed by replaying its whole history on a fresh frontend without restore")
 
 	var rc Case
@@ -351,20 +434,31 @@ func TestCheck(t *testing.T) {
 		return
 	}
 	t.Run("search", func(t *testing.T) {
+		// the small universes first: on a loaded machine the deadline then cuts the deep tail of the aligned family
+		for _, c := range unis {
+			t.Run(fmt.Sprintf("u%ds-S%d-P%d-ds%d", c.UnitS, c.Coarse, c.Phase, c.Dataset), func(t *testing.T) {
+				t.Parallel()
+				synctest.Test(t, func(t *testing.T) {
+					search(t, r, c, depthU, 2)
+				})
+			})
+		}
 		for ds := range datasets {
 			t.Run(fmt.Sprintf("ds%d", ds), func(t *testing.T) {
 				t.Parallel()
 				synctest.Test(t, func(t *testing.T) {
-					search(t, r, Case{Dataset: ds, SplitMin: 60}, depth)
+					search(t, r, Case{Dataset: ds, SplitMin: 60}, depth, 6)
 				})
 			})
 		}
 	})
+	synctest.Test(t, func(t *testing.T) { probes(t, r) })
 }
 
-const workers = 6
-
-func search(t *testing.T, r *vlib.R, base Case, depth int) {
+func search(t *testing.T, r *vlib.R, base Case, depth, workers int) {
+	u := universeOf(base)
+	alphabet := u.alphabet
+	name := describeUniverse(base)
 	rigs := make([]*rig, workers)
 	for i := range rigs {
 		rigs[i] = newRig(t, base)
@@ -373,7 +467,7 @@ func search(t *testing.T, r *vlib.R, base Case, depth int) {
 	directSteps := make([]int64, len(alphabet))
 	for i, x := range alphabet {
 		before := rigs[0].down.steps.Load()
-		direct[i] = do(rigs[0].direct, x)
+		direct[i] = do(rigs[0].direct, u, x)
 		directSteps[i] = rigs[0].down.steps.Load() - before
 		if direct[i].Err != "" {
 			t.Fatalf("HARNESS-ERROR direct chain fails for %+v: %s", x, direct[i].Err)
@@ -385,7 +479,7 @@ func search(t *testing.T, r *vlib.R, base Case, depth int) {
 	r.AddStates(1)
 	reported := map[string]int{}
 	for d := 1; d <= depth && len(frontier) > 0; d++ {
-		if r.Expired(fmt.Sprintf("dataset %d stopped before depth %d", base.Dataset, d)) {
+		if r.Expired(fmt.Sprintf("dataset %d %s stopped before depth %d", base.Dataset, name, d)) {
 			return
 		}
 		// all transitions of this level, computed by `workers` goroutines of this bubble
@@ -407,10 +501,10 @@ func search(t *testing.T, r *vlib.R, base Case, depth int) {
 					for qi, x := range alphabet {
 						g.cache.Restore(frontier[ni].snap)
 						before := g.down.steps.Load()
-						a := do(g.cached, x)
+						a := do(g.cached, u, x)
 						used := g.down.steps.Load() - before
 						o := outcome{saved: used < directSteps[qi]}
-						o.sig, _ = compare(x, direct[qi], a)
+						o.sig, _ = compare(u, x, direct[qi], a)
 						o.snap = g.cache.Snapshot()
 						o.dig = digest(o.snap)
 						res[qi] = o
@@ -421,11 +515,12 @@ func search(t *testing.T, r *vlib.R, base Case, depth int) {
 		}
 		wg.Wait()
 		if stop.Load() {
-			r.Expired(fmt.Sprintf("dataset %d stopped inside depth %d", base.Dataset, d))
+			r.Expired(fmt.Sprintf("dataset %d %s stopped inside depth %d", base.Dataset, name, d))
 			return
 		}
 		// merge in a fixed order (BFS order is deterministic, counter-examples are shortest-first)
 		var next []node
+		var nNew int
 		for ni, res := range out {
 			n := frontier[ni]
 			ndig := digest(n.snap)
@@ -433,11 +528,20 @@ func search(t *testing.T, r *vlib.R, base Case, depth int) {
 				r.AddTransitions(1)
 				r.Eval(1)
 				hist := append(append([]int(nil), n.hist...), qi)
-				c := Case{Dataset: base.Dataset, SplitMin: base.SplitMin, Hist: hist}
+				c := base
+				c.Hist = hist
 				if o.saved {
-					r.Nontrivial(fmt.Sprintf("%d/%s/%d", base.Dataset, ndig, qi))
+					r.Nontrivial(fmt.Sprintf("%s/%d/%s/%d", name, base.Dataset, ndig, qi))
+					if qi >= u.coarse && o.dig == ndig {
+						// an unaligned request that saved downstream steps without any write back: answered
+						// (partly) from a lower-step entry through an alternative key
+						r.Add("unaligned_requests_served_from_a_lower_step_entry", 1)
+					}
 				}
-				if d <= 2 {
+				if !u.align {
+					r.Add("unaligned_family_transitions", 1)
+				}
+				if d <= 2 && (u.align || base.Phase*2 == base.Coarse) {
 					r.Sample(c)
 				}
 				if o.sig != "" {
@@ -446,7 +550,7 @@ func search(t *testing.T, r *vlib.R, base Case, depth int) {
 						reported[o.sig]++
 						rsig, rdesc, at := replay(t, c)
 						if rsig == "" {
-							r.Note("difference %s seen after restoring a state did not reproduce by replaying %v", o.sig, hist)
+							r.Note("difference %s seen after restoring a state did not reproduce by replaying %v (%s)", o.sig, hist, name)
 							r.Cap("restore/replay mismatch")
 						} else {
 							c.Hist = hist[:at+1]
@@ -460,15 +564,18 @@ func search(t *testing.T, r *vlib.R, base Case, depth int) {
 					visited[o.dig] = true
 					r.AddStates(1)
 					r.Depth(d)
+					nNew++
 					next = append(next, node{snap: o.snap, hist: hist})
 				}
 			}
 		}
 		r.AddTraces(int64(len(frontier) * len(alphabet)))
-		r.Note("dataset %d depth %d: %d states expanded, %d new states", base.Dataset, d, len(frontier), len(next))
+		if u.align {
+			r.Note("dataset %d depth %d: %d states expanded, %d new states", base.Dataset, d, len(frontier), len(next))
+		}
 		frontier = next
 	}
-	if len(frontier) == 0 {
+	if len(frontier) == 0 && u.align {
 		r.Note("dataset %d: state space exhausted (%d states)", base.Dataset, len(visited))
 	}
 }
